@@ -36,7 +36,7 @@ RE_INT_T = re.compile(r"^(u?)int(\d+)_t$")
 RE_SIZE_T = re.compile(r"^size(\d+)([su])_t$")
 RE_REG = re.compile(r"^([CNPRMQVO])(ss|tt|uu|vv|dd|xx|yy|[stuvwdexyz])([VN])$")
 RE_IMM = re.compile(r"^([rRsSuUmn])iV$")
-RE_EXPLICIT = re.compile(r"^([RCPVQMGS])([0-3]{1,2})(_NEW)?$")
+RE_EXPLICIT = re.compile(r"^([RCPVQMGS])(3[01]|[12][0-9]|[0-9])(_NEW)?$")
 RE_ALIAS = re.compile(r"^HEX_REG_ALIAS_([A-Z0-9]+?)(_NEW)?$")
 RE_LOAD = re.compile(r"^mem_load_([su])(1|2|4|8|16|32|64)$")
 RE_STORE = re.compile(r"^mem_store_([su])(1|2|4|8|16|32|64)$")
